@@ -11,3 +11,5 @@ PROPERTY_RULES["C19"] = ["r23_detcheck"]
 PROPERTY_RULES["C19"] = ["r23_detcheck", "r34b_pivot"]
 PROPERTY_RULES["C11"] = ["r15_fail", "r15c_ignored", "r_slot"]
 PROPERTY_RULES["C10"] = ["r33_range"]
+PROPERTY_RULES["C20"] = ["r24_count", "r15_fail", "r15c_ignored", "r23_detcheck"]
+PROPERTY_RULES["C02"] = ["r25_loops"]
